@@ -4,7 +4,8 @@
 use crate::model::*;
 use crate::tape::Tape;
 
-#[derive(Clone, Debug)]
+#[derive(Clone, Debug, serde::Serialize, serde::Deserialize)]
+#[serde(default)]
 pub struct Params {
     pub min_pkgs: usize,
     pub max_pkgs: usize,
@@ -13,6 +14,8 @@ pub struct Params {
     pub max_constrains: usize,
     /// probabilities in 1/1000
     pub p_missing: u32,
+    /// package exists but lists no candidates
+    pub p_empty_pkg: u32,
     pub p_unknown: u32,
     pub p_excluded: u32,
     pub p_locked: u32,
@@ -26,6 +29,8 @@ pub struct Params {
     pub hint_w: [u32; 3],
     /// weights for version set shapes: all, single, range, subset, empty
     pub vs_w: [u32; 5],
+    /// the same for version sets used in constrains / root constraints
+    pub cons_vs_w: [u32; 5],
     /// reuse an existing version set of the package
     pub p_vs_reuse: u32,
     /// id layout weights: dense, dense shuffled, sparse shuffled
@@ -51,6 +56,7 @@ impl Default for Params {
             max_reqs: 3,
             max_constrains: 2,
             p_missing: 40,
+            p_empty_pkg: 40,
             p_unknown: 50,
             p_excluded: 60,
             p_locked: 80,
@@ -60,6 +66,7 @@ impl Default for Params {
             p_forward: 700,
             hint_w: [5, 2, 3],
             vs_w: [3, 3, 3, 3, 1],
+            cons_vs_w: [1, 3, 3, 3, 1],
             p_vs_reuse: 300,
             id_w: [2, 1, 3],
             max_id_gap: 40,
@@ -79,24 +86,41 @@ impl Params {
     /// few escape hatches, so ~half the cases are unsat and conflicts are deep.
     pub fn conflict_heavy() -> Self {
         Params {
-            min_pkgs: 3,
-            max_pkgs: 9,
-            max_cands: 4,
+            min_pkgs: 6,
+            max_pkgs: 12,
+            max_cands: 6,
             max_reqs: 3,
             max_constrains: 2,
-            p_missing: 20,
-            p_unknown: 30,
-            p_excluded: 40,
-            p_locked: 40,
+            p_missing: 5,
+            p_empty_pkg: 5,
+            p_unknown: 10,
+            p_excluded: 20,
+            p_locked: 10,
             p_favored: 250,
-            p_union: 100,
-            p_self_ref: 15,
-            p_forward: 600,
-            vs_w: [1, 5, 4, 4, 0],
-            min_root_reqs: 1,
-            max_root_reqs: 4,
+            p_union: 60,
+            p_self_ref: 5,
+            p_forward: 950,
+            vs_w: [5, 1, 4, 2, 0],
+            cons_vs_w: [0, 2, 4, 4, 0],
+            min_root_reqs: 2,
+            max_root_reqs: 5,
             max_root_constraints: 2,
             ..Params::default()
+        }
+    }
+
+    /// development aid: VERIF_PARAMS='{"max_cands":6,...}' overrides fields
+    pub fn env_override(self) -> Self {
+        match std::env::var("VERIF_PARAMS") {
+            Ok(js) => {
+                let mut v = serde_json::to_value(&self).unwrap();
+                let o: serde_json::Value = serde_json::from_str(&js).expect("VERIF_PARAMS json");
+                for (k, val) in o.as_object().unwrap() {
+                    v[k] = val.clone();
+                }
+                serde_json::from_value(v).expect("VERIF_PARAMS fields")
+            }
+            Err(_) => self,
         }
     }
 
@@ -144,7 +168,8 @@ struct Builder<'p> {
 }
 
 impl Builder<'_> {
-    fn new_vs(&mut self, t: &mut Tape, pkg: usize) -> usize {
+    fn new_vs(&mut self, t: &mut Tape, pkg: usize, cons: bool) -> usize {
+        let w = if cons { self.p.cons_vs_w } else { self.p.vs_w };
         // reuse?
         let existing: Vec<usize> = self
             .u
@@ -162,7 +187,7 @@ impl Builder<'_> {
             t.next();
             vec![]
         } else {
-            match t.weighted(&self.p.vs_w) {
+            match t.weighted(&w) {
                 0 => (0..n).collect(),
                 1 => vec![t.below(n)],
                 2 => {
@@ -209,13 +234,13 @@ impl Builder<'_> {
             let mut members = vec![];
             for _ in 0..k {
                 let pkg = self.pick_target_pkg(t, from);
-                members.push(self.new_vs(t, pkg));
+                members.push(self.new_vs(t, pkg, false));
             }
             self.u.unions.push(Union { id: 0, members });
             Req::Union(self.u.unions.len() - 1)
         } else {
             let pkg = self.pick_target_pkg(t, from);
-            Req::Single(self.new_vs(t, pkg))
+            Req::Single(self.new_vs(t, pkg, false))
         }
     }
 
@@ -232,7 +257,7 @@ impl Builder<'_> {
         let mut constrains = vec![];
         for _ in 0..nc {
             let pkg = self.pick_target_pkg(t, Some(from));
-            constrains.push(self.new_vs(t, pkg));
+            constrains.push(self.new_vs(t, pkg, true));
         }
         Deps::Known { reqs, constrains }
     }
@@ -253,7 +278,13 @@ pub fn gen_universe(t: &mut Tape, p: &Params) -> Universe {
     // package skeletons first (so that requirements can reference any package)
     for pi in 0..np {
         let missing = t.chance(p.p_missing, 1000);
-        let nc = if missing { 0 } else { t.below(p.max_cands + 1) };
+        let nc = if missing {
+            0
+        } else if t.chance(p.p_empty_pkg, 1000) {
+            0
+        } else {
+            1 + t.below(p.max_cands.max(1))
+        };
         let cands = (0..nc)
             .map(|ci| Cand {
                 sid: 0,
@@ -355,7 +386,7 @@ pub fn gen_problem(t: &mut Tape, u: &mut Universe, p: &Params) -> Problem {
     let mut constraints = vec![];
     for _ in 0..nc {
         let pkg = b.pick_target_pkg(t, None);
-        constraints.push(b.new_vs(t, pkg));
+        constraints.push(b.new_vs(t, pkg, true));
     }
     let mut soft = vec![];
     if p.max_soft > 0 {
